@@ -64,9 +64,17 @@ def linear(b, op, depth=0):
     return lin_rv(b, d[3], depth + 1)
 
 
+TRUNC = []      # (reason) collected while evaluating one argument
+
+
 def mul(x, y):
     if x[1] is not None and y[1] is not None:
         raise Stuck("product of two variables")
+    v = x if x[1] is not None else y
+    k = y if x[1] is not None else x
+    if v[1] is not None and v[0].denominator != 1 and k[0] != 1:
+        # the variable part was already divided (integer division) and is multiplied afterwards: digits are lost first
+        TRUNC.append("divides by %d before multiplying by %s" % (v[0].denominator, k[0]))
     return x[0] * y[0], x[1] if x[1] is not None else y[1]
 
 
@@ -126,18 +134,21 @@ def run(ctx, rep, rid="R-C09-scale"):
     for b in sorted(ctx.prog.bodies.values(), key=lambda x: x.id):
         if b.f["crate"] not in F.PRODUCT or "::test" in norm(b.id):
             continue
-        terms, hms = [], []
+        terms, hms, trunc = [], [], []
         for c in sorted(b.calls(), key=lambda c: (c.loc[0], c.loc[1])):
             cal = c.callee or ""
             if not cal.startswith("time::duration::Duration::") or cal.split("::")[-1] not in UNIT or len(c.args) != 1:
                 continue
             unit = cal.split("::")[-1]
+            del TRUNC[:]
             try:
                 q, base = linear(b, c.args[0])
             except Stuck as e:
                 terms.append((c, unit, None, str(e)))
                 continue
             terms.append((c, unit, (q * UNIT[unit], base), None))
+            if TRUNC:
+                trunc.append((c, unit, list(TRUNC)))
         # sub-second argument of Time::from_hms_*: the seconds position fixes S_U = 1
         for c in sorted(b.calls(), key=lambda c: (c.loc[0], c.loc[1])):
             cal = c.callee or ""
@@ -150,6 +161,9 @@ def run(ctx, rep, rid="R-C09-scale"):
                 hms.append((c, sub, None, str(e)))
                 continue
             hms.append((c, sub, (q * UNIT[sub], base), None))
+        for c, unit, why in trunc:
+            r.finding("%s|Duration::%s|divides-before-multiplying" % (norm(b.id), unit), loc_str(b.f, c.loc),
+                      "the argument %s: the integer division drops digits that the multiplication would have kept (the literal is truncated, not read exactly)" % "; ".join(why))
         fed = [t for t in terms if t[2] is None or t[2][1] in ("whole", "femptos")]
         fn = norm(b.id)
         for c, sub, val, err in hms:
